@@ -10,6 +10,30 @@
 #include <stdlib.h>
 #include <string.h>
 
+#ifdef CARQUET_VERIF
+/* Verification hook: under AddressSanitizer every arena allocation becomes its own
+ * addressable island (exact size, 16-byte poisoned gap after it), so that an over-read
+ * of a small metadata object inside the 64 KiB block is reported. Inert without ASan. */
+#if defined(__SANITIZE_ADDRESS__)
+#define CARQUET_VERIF_ARENA_ASAN 1
+#elif defined(__has_feature)
+#if __has_feature(address_sanitizer)
+#define CARQUET_VERIF_ARENA_ASAN 1
+#endif
+#endif
+#ifdef CARQUET_VERIF_ARENA_ASAN
+void __asan_poison_memory_region(void const volatile* addr, size_t size);
+void __asan_unpoison_memory_region(void const volatile* addr, size_t size);
+#define CARQUET_VERIF_RZ 16
+#define CARQUET_VERIF_POISON(p, n) __asan_poison_memory_region((p), (n))
+#define CARQUET_VERIF_UNPOISON(p, n) __asan_unpoison_memory_region((p), (n))
+#else
+#define CARQUET_VERIF_RZ 0
+#define CARQUET_VERIF_POISON(p, n) ((void)0)
+#define CARQUET_VERIF_UNPOISON(p, n) ((void)0)
+#endif
+#endif
+
 /* ============================================================================
  * Internal Helpers
  * ============================================================================
@@ -36,6 +60,9 @@ static carquet_arena_block_t* arena_new_block(size_t min_size) {
     block->next = NULL;
     block->size = block_size;
     block->used = 0;
+#ifdef CARQUET_VERIF
+    CARQUET_VERIF_POISON(CARQUET_ARENA_BLOCK_DATA(block), block_size);
+#endif
 
     return block;
 }
@@ -93,6 +120,9 @@ void carquet_arena_reset(carquet_arena_t* arena) {
     carquet_arena_block_t* block = arena->head;
     while (block) {
         block->used = 0;
+#ifdef CARQUET_VERIF
+        CARQUET_VERIF_POISON(CARQUET_ARENA_BLOCK_DATA(block), block->size);
+#endif
         block = block->next;
     }
 
@@ -136,10 +166,16 @@ void* carquet_arena_alloc_aligned(carquet_arena_t* arena, size_t size, size_t al
     /* Calculate aligned offset based on absolute address */
     size_t aligned_offset = arena_aligned_offset(block, block->used, alignment);
     size_t new_used = aligned_offset + size;
+#ifdef CARQUET_VERIF
+    new_used += CARQUET_VERIF_RZ;
+#endif
 
     /* Check if current block has space */
     if (new_used <= block->size) {
         void* ptr = CARQUET_ARENA_BLOCK_DATA(block) + aligned_offset;
+#ifdef CARQUET_VERIF
+        CARQUET_VERIF_UNPOISON(ptr, size);
+#endif
         block->used = new_used;
         arena->total_allocated += size;
         return ptr;
@@ -150,10 +186,16 @@ void* carquet_arena_alloc_aligned(carquet_arena_t* arena, size_t size, size_t al
         block = block->next;
         aligned_offset = arena_aligned_offset(block, block->used, alignment);
         new_used = aligned_offset + size;
+#ifdef CARQUET_VERIF
+        new_used += CARQUET_VERIF_RZ;
+#endif
 
         if (new_used <= block->size) {
             arena->current = block;
             void* ptr = CARQUET_ARENA_BLOCK_DATA(block) + aligned_offset;
+#ifdef CARQUET_VERIF
+            CARQUET_VERIF_UNPOISON(ptr, size);
+#endif
             block->used = new_used;
             arena->total_allocated += size;
             return ptr;
@@ -162,6 +204,9 @@ void* carquet_arena_alloc_aligned(carquet_arena_t* arena, size_t size, size_t al
 
     /* Need new block */
     size_t needed = size + alignment;  /* Worst case alignment overhead */
+#ifdef CARQUET_VERIF
+    needed += CARQUET_VERIF_RZ;
+#endif
     size_t block_size = needed > arena->default_block_size
                             ? needed
                             : arena->default_block_size;
@@ -180,6 +225,10 @@ void* carquet_arena_alloc_aligned(carquet_arena_t* arena, size_t size, size_t al
     aligned_offset = arena_aligned_offset(new_block, new_block->used, alignment);
     new_block->used = aligned_offset + size;
     arena->total_allocated += size;
+#ifdef CARQUET_VERIF
+    new_block->used += CARQUET_VERIF_RZ;
+    CARQUET_VERIF_UNPOISON(CARQUET_ARENA_BLOCK_DATA(new_block) + aligned_offset, size);
+#endif
 
     return CARQUET_ARENA_BLOCK_DATA(new_block) + aligned_offset;
 }
@@ -261,10 +310,19 @@ void carquet_arena_restore(carquet_arena_t* arena, carquet_arena_mark_t mark) {
     carquet_arena_block_t* block = mark.block->next;
     while (block) {
         block->used = 0;
+#ifdef CARQUET_VERIF
+        CARQUET_VERIF_POISON(CARQUET_ARENA_BLOCK_DATA(block), block->size);
+#endif
         block = block->next;
     }
 
     /* Restore marked block state */
+#ifdef CARQUET_VERIF
+    if (mark.used < mark.block->size) {
+        CARQUET_VERIF_POISON(CARQUET_ARENA_BLOCK_DATA(mark.block) + mark.used,
+                             mark.block->size - mark.used);
+    }
+#endif
     mark.block->used = mark.used;
     arena->current = mark.block;
     arena->total_allocated = mark.total_allocated;
